@@ -95,11 +95,11 @@ func c10(cx *Ctx, r *ev.Report) {
 
 	// 3. external calls: whitelist with reasons
 	allowed := map[string]string{
-		"log.Printf":                "process-global logger: internally locked, write-only, never read back",
-		"math/bits.OnesCount8":      "pure",
-		"context.WithCancel":        "Run: derives a private context",
-		"sync/atomic.LoadInt32":     "Run: private flag cell",
-		"sync/atomic.StoreInt32":    "Run: private flag cell",
+		"log.Printf":             "process-global logger: internally locked, write-only, never read back",
+		"math/bits.OnesCount8":   "pure",
+		"context.WithCancel":     "Run: derives a private context",
+		"sync/atomic.LoadInt32":  "Run: private flag cell",
+		"sync/atomic.StoreInt32": "Run: private flag cell",
 	}
 	ruleX := "EXTERNAL-CALLS(Step,Run): the only calls leaving the module are the user interfaces (Memory, IO, handlers, Context) and a short whitelist of pure or write-only library functions"
 	det = nil
